@@ -23,7 +23,7 @@ COUNTS = [0, 1, 2, 3, 27, 95, 96]
 
 def plan(tier, seed):
     n = 4 if tier == "quick" else 16
-    per = 40 if tier == "quick" else 1000
+    per = 150 if tier == "quick" else 1000
     return [{"tier": tier, "seed": seed, "shard": i, "start": i * per, "count": per, "max_nest": 2 if tier == "quick" else 3} for i in range(n)]
 
 
